@@ -2780,7 +2780,12 @@ func (s *Server) serveConnCounted(c net.Conn, countConcurrency bool) error {
 			ctx.Request.bodyStream = nil
 		}
 
-		idleConnTime.Store(ctx.time.Unix())
+		if bw == nil || bw.Buffered() == 0 {
+			// A response still sitting in the write buffer (the next pipelined
+			// request is already here) must not be cut off by Shutdown's idle
+			// closer: such a connection is not idle.
+			idleConnTime.Store(ctx.time.Unix())
+		}
 		s.setState(c, StateIdle)
 		ctx.Request.Reset()
 		ctx.Response.Reset()
